@@ -436,7 +436,7 @@ pub fn run(tier: &str) -> i32 {
     // constants, overrides, push constants, entry shapes, vertex inputs, call graphs), the tokens outside the user struct
     // items are the same under every option set
     {
-        let mut corpus: Vec<(String, String)> = crate::c18::corpus().into_iter().map(|(k, s, _)| (format!("atoms|{k}"), s)).collect();
+        let mut corpus: Vec<(String, String)> = crate::c18::corpus().into_iter().filter(|(k, _, _)| !k.starts_with("name|")).map(|(k, s, _)| (format!("atoms|{k}"), s)).collect(); // (user items named like generated items cannot be told apart in the split)
         for (i, p) in crate::c14::space(false).into_iter().enumerate() {
             if thorough || i % 5 == 0 {
                 corpus.push((format!("c14|{}", p.key), p.src));
